@@ -82,7 +82,7 @@ def ode15s(dae: nDAE,
     stats = Stats('ode15s')
 
     vsize = y0.shape[0]
-    tspan = np.array(tspan)
+    tspan = np.array(tspan, dtype=float)  # hmin = 16 * spacing(t0) is meant in double precision
     tend = tspan[-1]
     t0 = tspan[0]
     if t0 > tend:
